@@ -129,6 +129,13 @@ type callObj struct {
 	corr     *gorums.Correctable
 	typedGet func() (isNil bool, err error)
 	watches  map[int]<-chan struct{}
+	// watchers registered during earlier observations (newest last)
+	lateWatches []lateWatch
+}
+
+type lateWatch struct {
+	level int
+	ch    <-chan struct{}
 }
 
 // resInfo extracts the harness stamps of a result value.
@@ -364,7 +371,19 @@ func (r *Runner) obsCorr(tok uint64, obj *callObj) {
 	lw := make([][]interface{}, 0, len(WatchLevels))
 	for _, l := range WatchLevels {
 		w = append(w, []interface{}{l, closed(obj.watches[l])})
-		lw = append(lw, []interface{}{l, closed(obj.corr.Watch(l))})
+	}
+	// watchers registered by earlier observations are still watchers: they sit in
+	// the correctable's list between the early ones and must be released alike
+	for _, lw := range obj.lateWatches {
+		w = append(w, []interface{}{lw.level, closed(lw.ch)})
+	}
+	for _, l := range WatchLevels {
+		ch := obj.corr.Watch(l)
+		lw = append(lw, []interface{}{l, closed(ch)})
+		obj.lateWatches = append(obj.lateWatches, lateWatch{l, ch})
+	}
+	if n := len(obj.lateWatches); n > 3*len(WatchLevels) {
+		obj.lateWatches = obj.lateWatches[n-3*len(WatchLevels):]
 	}
 	r.E.Tr.Emit("ObsCorr", 0, tok, "level", level, "done", closed(obj.corr.Done()), "errtag", errtag, "src", src,
 		"idx", idx, "restok", restok, "rnode", rnode, "typed", typed, "nerr", ei.nerr, "nrep", ei.nrep,
